@@ -439,6 +439,8 @@ func runC04(w *World, r *Report) {
 		r.Check(cmp, "C04.dynamic-retype-checked", helper.Name()+" compares the chunks' dynamic types", helper.Pos(), "a reflect.Type == / != reflect.Type test in the helper", "the typed slice is built from the first chunk's type and the others are Set into it unchecked: a stream-only node with output `any` that emits a string chunk and then an int chunk makes reflect.Value.Set panic — recovered inside a node task (Invoke: an error), escaping from Collect at top level or from a stream in front of a branch")
 	}
 
+	shareRule(w, r, "C04.array-merge-owns-its-array", "merging array-backed readers starts from a slice of its own, never from the first reader's array: spare capacity of a producer's slice is shared by every reader made from it, so two fan-in nodes fed by one array-backed stream would overwrite each other's partner chunks in the stream paradigms only", 1, "C08", "C08.array-alias")
+
 	// ---- role-uniform (generalises in-out-wiring to every struct and function of the module)
 	r.Rule("C04.role-uniform", "within one function, same-role fields (input* / output*, pre* / post*) of one struct are filled from sources of one role; a lone cross-role assignment is a copy within one object", 20)
 	ruleRoleUniform(w, r, "C04.role-uniform", "compose", "schema", "internal", "flow", "callbacks", "components", "utils")
